@@ -285,8 +285,8 @@ def cases(draw, max_events=80):
     c = draw(G.setups(max_cells=20, max_mags=4, max_events=max_events, lo=-8, hi=2))
     n = len(c["rates"])
     c["rates"] = [r if r > 0 else float("%.6g" % 10 ** draw(st.floats(-8, 2))) for r in c["rates"]]
-    mode = draw(st.sampled_from(["indep", "perturbed", "scaled", "equal_totals", "equal_totals"]))
-    if mode == "equal_totals":
+    mode = draw(st.sampled_from(["indep", "perturbed", "scaled", "equal_totals", "equal_totals", "equal_totals_tiny_shifts"]))
+    if mode in ("equal_totals", "equal_totals_tiny_shifts"):
         # dyadic rates (exact sums) and B = A with some pairs of bins swapped: totals are bit-equal, so the null median
         # (N_A - N_B)/N is exactly 0 and events in unswapped bins have a log-rate difference exactly equal to it
         c["rates"] = [draw(st.integers(1, 640)) / 64.0 for _ in range(n)]
@@ -301,6 +301,14 @@ def cases(draw, max_events=80):
     else:
         f = draw(st.sampled_from([0.5, 2.0, 3.0]))
         rb = [r * f for r in c["rates"]]
+    if mode == "equal_totals_tiny_shifts" and n >= 2:
+        # on top of that, two bins differ by +-2^-30 (exact in binary, totals stay bit-equal, the null median stays exactly 0): their
+        # log-rate differences are about 1e-10..1e-9 - tiny, well defined, not zero: they take part in the ranking like any other
+        i, j = draw(st.integers(0, n - 1)), draw(st.integers(0, n - 1))
+        if i != j:
+            rb[i] += 2.0 ** -30
+            rb[j] -= 2.0 ** -30
+            c["obs"] = c["obs"] + [[i // c["mags"]["n"], i % c["mags"]["n"]], [j // c["mags"]["n"], j % c["mags"]["n"]]]
     c["rates_b"] = rb
     nc, nm = len(c["region"]["cells"]), c["mags"]["n"]
     target = draw(st.integers(2, 14))
